@@ -55,13 +55,14 @@ theorem count_append (xs ys : List Fl) : count (xs ++ ys) = count xs + count ys 
 
 /-- the skipna-sum of a list of indicator values (`1`/`0`, NaN where not valid) is the number of valid
     positions where the indicator holds -/
-theorem nansum_indicator {α : Type} (g : α → Fl) (v b : α → Bool)
-    (h : ∀ a, g a = if v a then ofBool (b a) else nan) (l : List α) :
+theorem nansum_indicator_mem {α : Type} (g : α → Fl) (v b : α → Bool) (l : List α)
+    (h : ∀ a ∈ l, g a = if v a then ofBool (b a) else nan) :
     nansum (l.map g) = fin (((l.filter fun a => v a && b a).length : Nat) : Rat) := by
   induction l with
   | nil => simp [nansum_nil]
   | cons a l ih =>
-    rw [List.map_cons, h a]
+    have ih := ih (fun x hx => h x (List.mem_cons_of_mem a hx))
+    rw [List.map_cons, h a List.mem_cons_self]
     by_cases hv : v a = true
     · by_cases hb : b a = true
       · simp only [hv, hb, if_true, ofBool]
@@ -74,5 +75,10 @@ theorem nansum_indicator {α : Type} (g : α → Fl) (v b : α → Bool)
     · simp only [Bool.not_eq_true] at hv
       simp only [hv, Bool.false_eq_true, if_false]
       rw [nansum_cons_nan, ih, List.filter_cons_of_neg (by simp [hv])]
+
+theorem nansum_indicator {α : Type} (g : α → Fl) (v b : α → Bool)
+    (h : ∀ a, g a = if v a then ofBool (b a) else nan) (l : List α) :
+    nansum (l.map g) = fin (((l.filter fun a => v a && b a).length : Nat) : Rat) :=
+  nansum_indicator_mem g v b l (fun a _ => h a)
 
 end SV.DiscL
